@@ -9,6 +9,8 @@ import core
 from impl import pp
 from snooty import intersphinx, n
 from snooty.intersphinx import Inventory, TargetDefinition
+from snooty.target_database import TargetDatabase
+import urllib.parse
 
 # the aliasing documented in Inventory.parse (the oracle's own copy: an edit of the table in the code
 # is a change of the documented behaviour and must be noticed)
@@ -22,6 +24,8 @@ ALIASES = {
     "py:module": "py:mod",
 }
 HEADER = "# Sphinx inventory version 2\n# Project: {}\n# Version: {}\n# The remainder of this file is compressed using zlib.\n"
+BASE = "https://example.com/docs/"
+MAXQ = 24
 RE_S = re.compile(r"\s")
 RE_D = re.compile(r"\d")
 RE_DOT = re.compile(r".")
@@ -35,7 +39,7 @@ ROLES = [("std", "label")] * 6 + [("std", "option"), ("std", "doc"), ("std", "cm
 # only .txt files are pages for the postprocessor; the .rst one is there to be ignored
 FILEIDS = ["index.txt", "a.txt", "b.txt", "ref/index.txt", "ref/x.y.txt", "ref/deep/er/page.txt", "é/pägé.txt", "ref/c.txt",
            "tutorial/index.txt", "d.txt", "ref/e.txt.txt", "ref/r.rst", "index/index.txt"]
-COLLIDING = ["a b", "a-b", "a$b", "a.b", "A b", "a_b", "x", "é x", "prog.--opt", "--opt"]
+COLLIDING = ["a b", "a-b", "a$b", "a.b", "A b", "a_b", "x", "é x", "prog.--opt", "--opt", "-o", "-O", "Ünicode", "ünicode", "X"]
 
 
 def is_space(c):
@@ -85,6 +89,68 @@ def dirhtml_py(fileid):
     if fileid == "index.txt":
         return ""
     return re.sub(r"\.(txt|rst|yaml|ast)$", "", fileid) + "/"
+
+
+def kept_entries(case):
+    """the dict Inventory holds for an `inv` case: a repeated key keeps its first position and its last value"""
+    es = list({e["key"]: e for e in case["entries"]}.values())
+    pos = {}
+    for e in case["entries"]:
+        pos.setdefault(e["key"], len(pos))
+    es.sort(key=lambda e: pos[e["key"]])
+    return es
+
+
+def case_variants(key):
+    out = []
+    for v in (key.lower(), key.upper(), key.swapcase(), key.replace(" ", "  ", 1), key.replace(" ", "\t ", 1)):
+        if v != key and v not in out:
+            out.append(v)
+    return out
+
+
+def queries_for(keys):
+    """raw keys a consuming project looks up: the written (canonical) keys themselves, then spelling variants of them"""
+    keys = list(dict.fromkeys(keys))[:MAXQ]
+    qs = list(keys)
+    for k in keys:
+        for v in case_variants(k):
+            if v not in qs and len(qs) < 3 * MAXQ:
+                qs.append(v)
+    return qs
+
+
+def inv_queries(kept):
+    return queries_for([expected_entry(e)["key"] for e in kept])
+
+
+def defs_queries(defs):
+    keys = []
+    for kd in defs:
+        if kd["defs"] and kd["key"].count(":") >= 2:
+            d, r, _ = kd["key"].split(":", 2)
+            keys.append(f"{ALIASES.get(d + ':' + r, d + ':' + r)}:{kd['defs'][0]['canonical']}")
+    return queries_for(keys)
+
+
+def lower_of_normalised(q):
+    return re.sub(r"\s+", " ", q).lower()
+
+
+def consume(back, queries):
+    """what another project's TargetDatabase answers for each key once it has loaded the inventory"""
+    back.base_url = BASE
+    db = TargetDatabase(intersphinx_inventories={"exported": back})
+    out = []
+    for q in queries:
+        try:
+            rs = db[q]
+        except Exception as e:
+            out.append({"exc": type(e).__name__})
+            continue
+        out.append({"n": len(rs), "hits": [{"name": r.canonical_target_name, "url": getattr(r, "url", None)}
+                                           for r in rs[:2]]})
+    return out
 
 
 def classes_for(texts):
@@ -137,7 +203,9 @@ class C15(core.PropertyCheck):
             "uri with space, newline in project name); raw payload lines (token soup + near-misses of valid lines, non-ASCII digits and "
             "whitespace) through Inventory.parse; FileId.as_dirhtml on relative paths; synthetic projects (1-4 pages in nested dirs, labels / "
             "rstobject targets with id collisions after make_html5_id, headings, titles with inline markup) through the real Postprocessor "
-            "-> generate_inventory -> dumps -> parse. non-trivial = inventory with >= 2 entries one of which has inner whitespace or '$' or "
+            "-> generate_inventory -> dumps -> parse; in both streams about half the cases hold same-role names differing only in letter "
+            "case, and every written key (first 24) plus its lower/upper/swapcase/whitespace-run variants is looked up through a fresh "
+            "TargetDatabase that loaded the parsed inventory (model: resolveIn). non-trivial = inventory with >= 2 entries one of which has inner whitespace or '$' or "
             "an aliased role / a raw line that matches / a project with >= 2 targets; distinct by case content")
     assumptions = [
         "Python's \\s (= str.isspace = what strip/rstrip remove), \\d and int() per digit are parameters of the model; the hypotheses PyReOk "
@@ -267,6 +335,16 @@ class C15(core.PropertyCheck):
         size = rng.choice([1, 2, 3, 3, 4, 5, 6, 8, 12, rng.randint(20, 200)])
         pool = [self.g_name(rng) for _ in range(3)]
         es = [self.g_entry(rng, pool) for _ in range(size)]
+        if rng.random() < 0.5:
+            # same role, names differing only in letter case (options -o / -O of one program), at different locations
+            for i in range(rng.randint(1, 3)):
+                e = rng.choice(es)
+                for nm in rng.sample([e["name"].lower(), e["name"].upper(), e["name"].swapcase(), e["name"].title()], 4):
+                    if nm != e["name"] and nm.strip() == nm and nm:
+                        ub = rng.choice([f"twin/#t{i}", f"twin/#t{i}-$", self.g_uri(rng)])
+                        es.insert(rng.randrange(len(es) + 1), {**e, "key": f"{e['domain']}:{e['role']}:{nm}", "name": nm, "uri_base": ub,
+                                                               "uri": ub[:-1] + nm if ub.endswith("$") else ub})
+                        break
         if bad:
             for _ in range(rng.randint(1, 2)):
                 es[rng.randrange(len(es))] = self.g_bad_entry(rng)
@@ -344,7 +422,7 @@ class C15(core.PropertyCheck):
                 if k <= 4:
                     items.append({"t": "label", "ids": [rng.choice(pool)], "title": self.g_title(rng)})
                 elif k <= 6:
-                    short = rng.choice(["--opt", "-v", "x y"])
+                    short = rng.choice(["--opt", "-v", "x y", "-o", "-O", "-o", "-O"])
                     dom, nm = rng.choice([("std", "option"), ("mongodb", "setting"), ("mongodb", "dbcommand"), ("py", "method")])
                     ids = [short, rng.choice(["prog", "a.b"]) + "." + short] if rng.random() < 0.5 else [rng.choice(pool)]
                     items.append({"t": "obj", "domain": dom, "name": nm, "ids": ids, "title": self.g_title(rng)})
@@ -456,7 +534,8 @@ class C15(core.PropertyCheck):
             except Exception as e:
                 return {"exc": "parse:" + type(e).__name__, "kept": kept, "file": header.decode("utf-8") + body}
             return {"exc": None, "kept": kept, "file": header.decode("utf-8") + body,
-                    "parsed": [td_to_json(key, t) for key, t in back.targets.items()]}
+                    "parsed": [td_to_json(key, t) for key, t in back.targets.items()],
+                    "resolved": consume(back, inv_queries(kept))}
         if k == "lines":
             data = HEADER.format("p", "").encode("utf-8") + zlib.compress(case["text"].encode("utf-8"), 9)
             try:
@@ -497,7 +576,8 @@ class C15(core.PropertyCheck):
             pages[fid.as_posix()] = {"anchors": anchors, "first_heading": first_heading}
         return {"exc": None, "defs": defs,
                 "generated": [td_to_json(key, t) for key, t in gen.targets.items()],
-                "parsed": [td_to_json(key, t) for key, t in back.targets.items()], "pages": pages}
+                "parsed": [td_to_json(key, t) for key, t in back.targets.items()], "pages": pages,
+                "resolved": consume(back, defs_queries(defs))}
 
     # ------------------------------------------------------------------ model
     @functools.lru_cache(maxsize=4096)
@@ -510,15 +590,12 @@ class C15(core.PropertyCheck):
     def model_request(self, case):
         k = case["kind"]
         if k == "inv":
-            es = list({e["key"]: e for e in case["entries"]}.values())  # the dict the implementation holds
-            # (dict semantics: a repeated key keeps its first position and the last value)
-            pos = {}
-            for e in case["entries"]:
-                pos.setdefault(e["key"], len(pos))
-            es.sort(key=lambda e: pos[e["key"]])
-            texts = [case["project"], case["version"]] + [str(v) for e in es for v in e.values() if v is not None]
+            es = kept_entries(case)  # the dict the implementation holds
+            qs = inv_queries(es)
+            texts = [case["project"], case["version"]] + [str(v) for e in es for v in e.values() if v is not None] + qs
             sp, dg = classes_for(texts)
-            return {"op": "c15.inv", "space": sp, "digits": dg, "project": case["project"], "version": case["version"], "entries": es}
+            return {"op": "c15.inv", "space": sp, "digits": dg, "project": case["project"], "version": case["version"], "entries": es,
+                    "queries": [[q, lower_of_normalised(q)] for q in qs]}
         if k == "lines":
             sp, dg = classes_for([case["text"]])
             return {"op": "c15.lines", "space": sp, "digits": dg, "text": case["text"]}
@@ -528,8 +605,9 @@ class C15(core.PropertyCheck):
         if defs is None:
             return None
         texts = [str(v) for kd in defs for d in kd["defs"] for v in (d["canonical"], d["title"], d["html_id"], "/".join(d["fileid"]))]
-        sp, dg = classes_for(texts + [kd["key"] for kd in defs])
-        return {"op": "c15.gen", "space": sp, "digits": dg, "defs": defs}
+        qs = defs_queries(defs)
+        sp, dg = classes_for(texts + [kd["key"] for kd in defs] + qs)
+        return {"op": "c15.gen", "space": sp, "digits": dg, "defs": defs, "queries": [[q, lower_of_normalised(q)] for q in qs]}
 
     def compare(self, case, model, impl):
         k = case["kind"]
@@ -546,6 +624,9 @@ class C15(core.PropertyCheck):
                 return f"dumped file differs: model {model['file']!r} impl {impl['file']!r}"
             if model["parsed"] != impl["parsed"]:
                 return f"parsed inventory differs: model {model['parsed']} impl {impl['parsed']}"
+            r = self.compare_resolved(model, impl, inv_queries(impl["kept"]))
+            if r:
+                return r
             for e, per in zip(impl["kept"], model["per"]):
                 if per["wf"] != wf_entry(e):
                     return f"WFEntry (Lean) and wf_entry (harness oracle) disagree on {e}"
@@ -569,6 +650,16 @@ class C15(core.PropertyCheck):
             return f"generate_inventory differs: model {model['inventory']} impl {impl['generated']}"
         if model["parsed"] != impl["parsed"]:
             return f"parse(dumps(generated)) differs: model {model['parsed']} impl {impl['parsed']}"
+        return self.compare_resolved(model, impl, defs_queries(impl["defs"]))
+
+    def compare_resolved(self, model, impl, queries):
+        """TargetDatabase.__getitem__ on the loaded inventory vs. `resolveIn` (exact key, lower-cased key, un-escaped php key)"""
+        for q, m, i in zip(queries, model.get("resolved") or [], impl.get("resolved") or []):
+            want = [] if m["hit"] is None else [{"name": m["hit"]["name"], "url": urllib.parse.urljoin(BASE, m["hit"]["uri"])}]
+            if "exc" in i:
+                return f"lookup of {q!r} in the loaded inventory raised {i['exc']}; model: {want}"
+            if i["n"] != len(want) or i["hits"][:1] != want:
+                return f"lookup of {q!r} in the loaded inventory differs: model {want} (normalised key {m['nk']!r}) impl {i}"
         return None
 
     # ------------------------------------------------------------------ direct oracle
@@ -591,6 +682,31 @@ class C15(core.PropertyCheck):
                 return f"{what}: entry invented by parse(dumps(inv)): {got[key]}"
         return None
 
+    def resolve_oracle(self, written, queries, resolved, what):
+        """"another project loading it resolves the same names to the same locations": every written entry of the
+        alphabet whose key is whitespace-normalised (lookups normalise whitespace runs) is found under its own key, once,
+        at base + its uri, under its own name."""
+        if not all(wf_entry(e) for e in written):
+            return None
+        want = {}
+        for e in written:
+            x = expected_entry(e)
+            want[x["key"]] = x
+        for q, r in zip(queries, resolved):
+            x = want.get(q)
+            if x is None or re.sub(r"\s+", " ", q) != q:
+                continue
+            loc = urllib.parse.urljoin(BASE, x["uri"])
+            if "exc" in r:
+                return f"{what}: resolving {q!r} through a project that loaded the inventory raised {r['exc']}"
+            if r["n"] != 1:
+                return f"{what}: resolving {q!r} through a project that loaded the inventory gave {r['n']} results, expected the one at {loc!r}"
+            h = r["hits"][0]
+            if h["url"] != loc or h["name"] != x["name"]:
+                return (f"{what}: resolving {q!r} through a project that loaded the inventory gave name {h['name']!r} at {h['url']!r}; "
+                        f"the inventory lists it as {x['name']!r} at {loc!r}")
+        return None
+
     def oracle(self, case, impl):
         k = case["kind"]
         if k == "inv":
@@ -601,12 +717,14 @@ class C15(core.PropertyCheck):
                 return "dumps accepted a newline in project name/version"
             if impl["exc"]:
                 return f"parse(dumps(inv)) raised {impl['exc']}" if all(wf_entry(e) for e in impl["kept"]) else None
-            return self.roundtrip_oracle(impl["kept"], impl["parsed"], "inventory")
+            return (self.roundtrip_oracle(impl["kept"], impl["parsed"], "inventory")
+                    or self.resolve_oracle(impl["kept"], inv_queries(impl["kept"]), impl["resolved"], "inventory"))
         if k != "project":
             return None
         if impl["exc"]:
             return f"building the inventory raised {impl['exc']}: {impl.get('msg')}"
-        r = self.roundtrip_oracle(impl["generated"], impl["parsed"], "generated inventory")
+        r = (self.roundtrip_oracle(impl["generated"], impl["parsed"], "generated inventory")
+             or self.resolve_oracle(impl["generated"], defs_queries(impl["defs"]), impl["resolved"], "generated inventory"))
         if r:
             return r
         by_dir = {dirhtml_py(fid): (fid, pg) for fid, pg in impl["pages"].items()}
@@ -645,7 +763,7 @@ class C15(core.PropertyCheck):
         return None
 
     def finding_key(self, case, impl, desc):
-        m = re.match(r"([^:]*: )?(entry (lost|changed|invented)|doc entry|entry|target|dumps|parse|building)", desc)
+        m = re.match(r"([^:]*: )?(entry (lost|changed|invented)|doc entry|entry|target|dumps|parse|building|resolving)", desc)
         return f"{case['kind']}:{m.group(0) if m else desc[:40]}"
 
     # ------------------------------------------------------------------ evidence
@@ -688,6 +806,9 @@ class C15(core.PropertyCheck):
                 tags.append("inv:big priority")
             if len(impl["parsed"]) < len(es):
                 tags.append("inv:keys merged or lines skipped")
+            keys = [e["key"] for e in impl["parsed"]]
+            if len({x.lower() for x in keys}) < len(keys):
+                tags.append("inv:names differing only in case")
         elif k == "lines":
             tags.append(f"lines:{len(impl['parsed'])} matched")
         elif k == "dirhtml":
@@ -700,6 +821,9 @@ class C15(core.PropertyCheck):
                 tags.append("project:alias keys merged")
             if any("/" in f for f in impl["pages"]):
                 tags.append("project:nested dir")
+            keys = [e["key"] for e in impl["parsed"]]
+            if len({x.lower() for x in keys}) < len(keys):
+                tags.append("project:names differing only in case")
         return tags
 
     def sample(self, case, impl):
